@@ -35,6 +35,9 @@ EXPLANATION += ' VM-INITORDER, X86-ISA-BASE.'
 CLAIM += (' No run() reads a member that randomx_vm::initialize() derives from the program before it has called initialize() (VM-INITORDER); the hand-written runtime uses only baseline x86-64 instructions outside the hardware-AES fragments (X86-ISA-BASE).')
 
 
+CLAIM += (' The dataset read of a compiled x86-64 program - the bytes the prologue generator emits for readReg2 ^ readReg3 and the hand-written v1 / v2 / light-mode pieces - executed on terms performs specification 4.6.2 steps 5-8: read at the old ma, mx (v1) or ma (v2) XORed with the zero-extended value, halves swapped, prefetch at the new mx, item number and saved registers in light mode (X86-DSREAD-HSEM).')
+EXPLANATION += ' X86-DSREAD-HSEM.'
+
 def run(ctx, R):
     FI = astq.Facts(ctx, 'K0')
     R.saw(config='K0')
@@ -59,6 +62,7 @@ def run(ctx, R):
     genreset.rule_ctor_init(ctx, R, 'x86')
     x86loop.rule_loopstore(ctx, R)
     x86loop.rule_loopload(ctx, R)
+    x86loop.rule_dsread(ctx, R)
     x86loop.rule_dsitem(ctx, R)
     vmcfg.rule_initorder(ctx, R, astq.Facts(ctx, 'K0'))
     x86loop.rule_isa_base(ctx, R)
